@@ -178,6 +178,22 @@ func (propC16) Gen(r *Rng, run uint64, tier string) *Plan {
 		s.End, s.EndSp = s.Now, "nanos" // exactly now
 	}
 	s.Start, s.StartSp = genInstant(r.Sub("start"), s.End-3600*sec)
+	if er := r.Sub("early"); er.Bool(0.05) {
+		// an explicit start in the first months of 1970: its nanosecond spelling has
+		// 11 to 16 digits (below 11 it could not be told from seconds)
+		p10 := int64(1)
+		for k := 10 + er.Intn(6); k > 0; k-- {
+			p10 *= 10
+		}
+		s.Start, s.StartSp, s.HasStart = p10+er.Int63n(9*p10), Pick(er, c16Spellings), true
+		switch s.StartSp {
+		case "sec":
+			s.Start -= s.Start % sec
+		case "frac":
+			s.Start -= s.Start % 1_000_000
+		}
+		p.Tags["early_start"] = "1"
+	}
 	s.SinceNs, s.SinceTxt = genPromDuration(r.Sub("since"))
 	if r.Bool(0.1) {
 		// whole days, weeks or years: calendar arithmetic and absolute arithmetic differ across a DST switch
